@@ -147,6 +147,46 @@ pub fn gen_pool(rng: &mut Rng) -> Program {
 
 // ---- C10 --------------------------------------------------------------------------------
 
+/// C17: pool threads have died of panicking jobs; afterwards several threads schedule work on fresh objects at once, so
+/// that reaping the dead threads, replacing them and waking dormant ones all race.
+pub fn gen_pool_panic(rng: &mut Rng) -> Program {
+    let pool_max = rng.range(1, 3) as usize;
+    let n_victims = rng.range(1, pool_max as u64) as usize;
+    let n_fresh = rng.range(3, 5) as usize;
+    let n_objs = n_victims + n_fresh;
+    let mut g = Gen::new(rng, n_objs);
+    let mut t0 = vec![];
+    for v in 0..n_victims {
+        let mut body = vec![];
+        if g.rng.permille(400) {
+            body.push(Step::Yield(1));
+        }
+        body.push(Step::Panic);
+        t0.push({ let __k = OpKind::Desync { o: v, body }; g.op(__k) });
+    }
+    let n_threads = g.rng.range(3, 4) as usize;
+    let mut threads = vec![];
+    for _ in 0..n_threads {
+        let mut t = vec![];
+        let n = g.rng.range(1, 3);
+        for _ in 0..n {
+            let o = n_victims + g.rng.below(n_fresh as u64) as usize;
+            let y = g.rng.range(0, 2) as u8;
+            let body = if y > 0 { vec![Step::Yield(y)] } else { vec![] };
+            t.push({ let __k = OpKind::Desync { o, body }; g.op(__k) });
+        }
+        threads.push(t);
+    }
+    let mut prog = base_program(pool_max, n_objs);
+    prog.prespawn = g.rng.permille(500);
+    let ctl1 = if g.rng.permille(250) { vec![CtlOp::Despawn] } else { vec![] };
+    prog.phases = vec![
+        Phase { ctl: vec![], threads: vec![t0], env_gates: vec![], env_streams: vec![] },
+        Phase { ctl: ctl1, threads, env_gates: vec![], env_streams: vec![] },
+    ];
+    finish(prog, &g)
+}
+
 pub fn gen_isolate(rng: &mut Rng) -> Program {
     let n_free = rng.range(1, 2) as usize;
     let n_blocked = rng.range(1, 2) as usize;
